@@ -67,10 +67,17 @@ theorem create_failed_cond_no_effect (a : CreateArgs R) (flt : Option Addr) (s :
 /-- **add-node**: whatever single step fails (engine info, plugin AddNode, store AddNode) a failed
 call leaves nodes, plugin records, capacity, usage and workloads as they were (the plugin record
 created in the condition step is removed again). -/
-theorem addNode_failed_no_effect (n : String) (c : R) (flt : Option Addr) (s : State R)
-    (hfresh : ¬ s.pnodes.contains n → s.cap n = ResAlg.zero ∧ s.usage n = ResAlg.zero) :
+theorem addNode_failed_no_effect (n : String) (c : R) (flt : Option Addr) (s : State R) (hwf : PluginWF s) :
     (run (addNode n c) flt s).1 = .fail → NodeAbsEq s (run (addNode n c) flt s).2.st :=
-  addNode_failed n c flt { st := s } hfresh
+  addNode_failed n c flt { st := s } (fun h => hwf.1 n (by simpa using h)) (hwf.2 n)
+
+/-- `PluginWF` (an absent plugin record reads as zero; every store node has a plugin record) is kept
+by successful add-node and remove-node (`pluginWF_addNode_ok`, `pluginWF_removeNode_ok`); the other
+operations write usage / capacity only for nodes named by their arguments (plan nodes, the node of a
+recorded workload), which have plugin records in the real system (C22). -/
+theorem pluginWF_node_ops (n : String) (c : R) (s : State R) (h : PluginWF s) (hnd : s.nodes.Nodup) :
+    PluginWF (sAddNode n (pAddNode n c s)) ∧ PluginWF (pRmNode n (sRmNode n s)) :=
+  ⟨pluginWF_addNode_ok n c h, pluginWF_removeNode_ok n h hnd⟩
 
 /-- **The full statement for remove-node** (false: D16c). -/
 def PropC11RemoveNode : Prop :=
